@@ -41,6 +41,92 @@ def _all_methods(prog: Program, ci: ClassInfo) -> dict:
     return out
 
 
+_RUNS_ON: dict = {}
+
+
+def runs_on(prog: Program, fi: FuncInfo, sub: ClassInfo) -> bool:
+    """can the method `fi` of a base class run with an instance of the concrete class `sub` as self?  Not when `sub`
+    overrides it; and a private method (single underscore) only when a public / special method that `sub` resolves
+    reaches it through calls on self — or when something outside the hierarchy mentions the name at all."""
+    key = (prog.uid, fi.key, sub.name, id(sub))
+    if key in _RUNS_ON:
+        return _RUNS_ON[key]
+    out = True
+    name = fi.name
+    if prog.find_method(sub, name) is not fi:
+        out = False
+    elif name.startswith("_") and not (name.startswith("__") and name.endswith("__")):
+        mro = [k for k in prog.mro(sub) if isinstance(k, ClassInfo)]
+        names = {n for k in mro for n in k.methods}
+        resolved = {n: prog.find_method(sub, n) for n in names}
+        hier = {id(m.node) for k in mro for m in k.methods.values()}
+        def own(g):  # the name under which a method of another class refers to its own instance
+            return (g.param_names() or [None])[0] if g.cls is not None and not g.is_staticmethod else None
+
+        outside = any(
+            isinstance(x, ast.Attribute) and x.attr == name and not (isinstance(x.value, ast.Name) and x.value.id == own(g))
+            for g in prog.funcs
+            if id(g.node) not in hier and (g.parent is None or id(g.parent.node) not in hier)
+            for x in ast.walk(g.node)
+        )
+        if not outside:
+            seen: set = set()
+            todo = [m for n, m in resolved.items() if m is not None and (not n.startswith("_") or (n.startswith("__") and n.endswith("__")))]
+            out = False
+            while todo:
+                m = todo.pop()
+                if id(m) in seen:
+                    continue
+                seen.add(id(m))
+                if m is fi:
+                    out = True
+                    break
+                first = (m.param_names() or [None])[0]
+                for x in ast.walk(m.node):
+                    if isinstance(x, ast.Attribute) and isinstance(x.value, ast.Name) and x.value.id == first and resolved.get(x.attr) is not None:
+                        todo.append(resolved[x.attr])
+                    elif isinstance(x, ast.Call) and isinstance(x.func, ast.Name) and x.func.id == "getattr" and len(x.args) >= 2 and isinstance(x.args[0], ast.Name) and x.args[0].id == first:
+                        # getattr(self, <name>): any method may be meant unless the name is a literal
+                        if isinstance(x.args[1], ast.Constant):
+                            if resolved.get(x.args[1].value) is not None:
+                                todo.append(resolved[x.args[1].value])
+                        else:
+                            lits = _iterated_literals(prog, mro, m, first, x.args[1])
+                            if lits is not None:
+                                todo.extend(resolved[n_] for n_ in lits if resolved.get(n_) is not None)
+                            else:
+                                todo.extend(v for v in resolved.values() if v is not None)
+    _RUNS_ON[key] = out
+    return out
+
+
+def _iterated_literals(prog: Program, mro: list, m: FuncInfo, first: str, name: ast.AST):
+    """the strings a loop variable takes when it runs over a literal tuple / a class-level tuple of strings read
+    through self (`for name in self._limit_names`); None when that cannot be told"""
+    if not isinstance(name, ast.Name):
+        return None
+    its = [g.iter for x in ast.walk(m.node) if isinstance(x, (ast.GeneratorExp, ast.ListComp, ast.SetComp, ast.DictComp)) for g in x.generators if isinstance(g.target, ast.Name) and g.target.id == name.id]
+    its += [x.iter for x in ast.walk(m.node) if isinstance(x, ast.For) and isinstance(x.target, ast.Name) and x.target.id == name.id]
+    stores = [x for x in ast.walk(m.node) if isinstance(x, ast.Name) and x.id == name.id and isinstance(x.ctx, ast.Store)]
+    if len(its) != 1 or len(stores) != 1:
+        return None
+    it = its[0]
+    if isinstance(it, ast.Attribute) and isinstance(it.value, ast.Name) and it.value.id == first:
+        val = None
+        for k in mro:
+            for st in k.node.body:
+                if isinstance(st, ast.Assign) and len(st.targets) == 1 and isinstance(st.targets[0], ast.Name) and st.targets[0].id == it.attr:
+                    val = st.value
+                elif isinstance(st, ast.AnnAssign) and isinstance(st.target, ast.Name) and st.target.id == it.attr and st.value is not None:
+                    val = st.value
+            if val is not None:
+                break
+        it = val
+    if isinstance(it, (ast.Tuple, ast.List)) and it.elts and all(isinstance(e, ast.Constant) and isinstance(e.value, str) for e in it.elts):
+        return [e.value for e in it.elts]
+    return None
+
+
 def missing_attributes(prog: Program, fi: FuncInfo):
     """[(node, receiver text, attr, classes lacking it)] for attribute loads on receivers typed as
     in-repo classes where the attribute exists in none of the possible classes (for `self`: is missing
@@ -69,6 +155,8 @@ def missing_attributes(prog: Program, fi: FuncInfo):
             continue
         if x.attr.startswith("__") and x.attr.endswith("__"):
             continue
+        if mode == "self" and len(classes) > 1:
+            classes = [c for c in classes if c is fi.cls or runs_on(prog, fi, c)] or [fi.cls]
         lacking = [c for c in classes if x.attr not in prog.class_attr_names(c)]
         if lacking and len(lacking) == len(classes) or (mode == "self" and lacking):
             key = (unparse(recv), x.attr)
